@@ -46,8 +46,10 @@ KEEP_PER_SIGNATURE = 3
 
 # (cfg, arity, max number of paths replayed or None = whole cover)
 CFG = {
-    "quick": [("PointsQuick.cfg", 0, None), ("CurveQuick.cfg", 2, None), ("SurfaceQuick.cfg", 3, None)],
-    "thorough": [("PointsThorough.cfg", 0, None), ("CurveThorough.cfg", 2, None), ("Curve4Thorough.cfg", 2, None),
+    "quick": [("PointsQuick.cfg", 0, None), ("Curve2Quick.cfg", 2, None), ("CurveQuick.cfg", 2, None),
+              ("SurfaceQuick.cfg", 3, None)],
+    "thorough": [("PointsThorough.cfg", 0, None), ("Curve2Quick.cfg", 2, None), ("CurveThorough.cfg", 2, None),
+                 ("Curve4Thorough.cfg", 2, None),
                  ("CurveOrientThorough.cfg", 2, None), ("SurfaceThorough.cfg", 3, None),
                  ("SurfaceOrientThorough.cfg", 3, None)],
 }
@@ -258,7 +260,10 @@ class Runner:
         self.arity = item["arity"]
         self.cls = getattr(objects, CLASSES[self.arity])
         self.kinds = item["kinds"]
+        # how the call is made (not what it means) rotates over the paths: indices as list / ndarray,
+        # clear_cache off / on
         self.as_array = bool(item.get("pid", 0) % 2)
+        self.clear_cache = bool((item.get("pid", 0) // 2) % 2)
         self.Workspace = Workspace
         self.path = os.path.join(scratch(), f"c07_{os.getpid()}_{item.get('pid', 0)}.geoh5")
         if os.path.exists(self.path):
@@ -305,12 +310,16 @@ class Runner:
                 name = f"d{lab['name']}"
                 self._child(name).values = concrete(lab["vals"], self.kinds[name])
             elif act == "RemoveVertices":
-                self.obj.remove_vertices(self._index(lab["ix"]))
+                self.obj.remove_vertices(self._index(lab["ix"]), clear_cache=self.clear_cache)
             elif act == "RemoveCells":
-                self.obj.remove_cells(self._index(lab["ix"]))
+                self.obj.remove_cells(self._index(lab["ix"]), clear_cache=self.clear_cache)
             elif act == "MaskedCopy":
                 source = self.obj
                 new = self.obj.copy(mask=np.array(lab["mask"], dtype=bool))
+                self.obj = new
+            elif act == "CellMaskedCopy":
+                source = self.obj
+                new = self.obj.copy(cell_mask=np.array(lab["mask"], dtype=bool))
                 self.obj = new
             elif act == "Reopen":
                 return self.reopen(last)
@@ -534,7 +543,7 @@ def run(tier, seed):
             raise MachineryError(f"negative control {cfg}: expected {inv} to be violated, got {r.violated}")
         neg.append(f"{cfg}: {inv} violated")
     # vacuity: every operation in both outcomes, every deviation predicted somewhere
-    needed = [f"act:{a}:{o}" for a in ("AddData", "SetValues", "RemoveVertices", "RemoveCells", "MaskedCopy")
+    needed = [f"act:{a}:{o}" for a in ("AddData", "SetValues", "RemoveVertices", "RemoveCells", "MaskedCopy", "CellMaskedCopy")
               for o in ("ok", "refused")] + ["act:Reopen:ok"]
     missing = [k for k in needed if not stats.get(k)]
     if missing:
@@ -568,7 +577,8 @@ def run(tier, seed):
             "index sequences of length <=2/3, TLC depth 3/4; replayed paths walk up to 10 operations)",
             "data kinds FLOAT, INTEGER, BOOLEAN rotate over the paths; TEXT data are not modelled",
             "a failing operation is required to leave a consistent, value-preserving state, not the pre-state",
-            "non-negative indices only; clear_cache=False; copies stay in the same workspace",
+            "non-negative indices only; copies stay in the same workspace; indices as list/ndarray and "
+            "clear_cache False/True alternate over the paths",
         ],
     }
 
